@@ -29,7 +29,11 @@ TReset ==
 TCall ==
   /\ IsEv("call") /\ Consume /\ pend[Cur.g].st = "idle"
   /\ pend' = [pend EXCEPT ![Cur.g] = [st |-> "called", line |-> l, pre |-> ("ctx" \in DOMAIN Cur /\ Cur.ctx \in cdone)]]
-  /\ UNCHANGED <<vars, cdone>>
+  \* a context SubscribeCancel derives from an already cancelled parent is dead from the start
+  /\ LET dead(S) == Cur.op = "Sub" /\ Cur.auto /\ Cur.parent \in S IN
+       /\ ctxc' = IF dead(ctxc) THEN ctxc \cup {Cur.ctx} ELSE ctxc
+       /\ cdone' = IF dead(cdone) THEN cdone \cup {Cur.ctx} ELSE cdone
+  /\ UNCHANGED <<reg, inflight, queue, hist>>
 
 TRet ==
   /\ IsEv("ret") /\ Consume
@@ -37,8 +41,11 @@ TRet ==
   /\ pend' = [pend EXCEPT ![Cur.g] = Idle]
   /\ UNCHANGED <<vars, cdone>>
 
-TCancel == IsEv("cancel") /\ Consume /\ Cancel(Cur.ctx) /\ UNCHANGED <<pend, cdone>>
-TCancelled == IsEv("cancelled") /\ Consume /\ cdone' = cdone \cup {Cur.ctx} /\ UNCHANGED <<vars, pend>>
+\* contexts SubscribeCancel derived (so far) from context p: they are cancelled with it
+Derived(p) == {TLog[i].ctx : i \in {j \in 1..(l - 1) : TLog[j].ev = "call" /\ TLog[j].op = "Sub" /\ TLog[j].auto /\ TLog[j].parent = p}}
+TCancel == IsEv("cancel") /\ Consume /\ UNCHANGED <<pend, cdone>>
+           /\ ctxc' = ctxc \cup {Cur.ctx} \cup Derived(Cur.ctx) /\ UNCHANGED <<reg, inflight, queue, hist>>
+TCancelled == IsEv("cancelled") /\ Consume /\ cdone' = cdone \cup {Cur.ctx} \cup Derived(Cur.ctx) /\ UNCHANGED <<vars, pend>>
 
 \* receivers currently waiting on target t (a Recv call that has not obtained its value yet)
 \* (t = 0 in a Recv call: the receiver takes from whichever target has something)
@@ -49,7 +56,10 @@ PubCanStep(g) ==
   \/ \E s \in inflight[g].pending : CanTake(s.t) \/ ~Live(s.ctx)
   \/ inflight[g].pending = {} \/ ~Live(inflight[g].pctx)
 
-WriterWaiting == \E g \in GS : pend[g].st = "called" /\ CallOf(g).op \in {"Sub", "Unsub"}
+\* (a writer queued on the registry lock holds back new publishers: a called Subscribe/Unsubscribe, or the goroutine
+\* of a SubscribeCancel whose context is cancelled and which has not unsubscribed yet)
+WriterWaiting == \/ \E g \in GS : pend[g].st = "called" /\ CallOf(g).op \in {"Sub", "Unsub"}
+                 \/ \E s \in reg : s.auto /\ ~Live(s.ctx)
 
 CanProgress(g) ==
   LET p == pend[g] e == TLog[p.line] IN
@@ -65,19 +75,22 @@ TQuiescent ==
   /\ IsEv("quiescent") /\ Consume
   /\ {g \in GS : pend[g].st # "idle"} = {Cur.pending[i] : i \in 1..Len(Cur.pending)}
   /\ Cur.exact => \A g \in GS : pend[g].st # "idle" => ~CanProgress(g)
+  \* nothing the library still has to do by itself (SubscribeCancel's unsubscribe) is outstanding
+  /\ Cur.exact => ~\E s \in reg : s.auto /\ s.ctx \in cdone /\ Publishing = {}
   /\ UNCHANGED <<vars, pend, cdone>>
 
 TFinal ==
   /\ IsEv("final") /\ Consume
   /\ \A t \in Targets : queue[t] = <<>>          \* everything that was sent has been received by its target, nothing else
   /\ Cur.nsubs = Cardinality(reg)                \* the registry holds exactly the subscriptions the model holds
+  /\ Cur.leaked = 0 /\ Cur.returned             \* C12: no goroutine of the library (SubscribeCancel's) outlives its context
   /\ UNCHANGED <<vars, pend, cdone>>
 
 SilentOK == l <= NL /\ Cur.ev \notin {"call", "reset", "cancelled"}
 
 LinSub(g) ==
   /\ pend[g].st = "called" /\ CallOf(g).op = "Sub"
-  /\ \E r \in {"ok", "panic"} : MatchR(g, r) /\ Subscribe(CallOf(g).key, CallOf(g).t, CallOf(g).ctx, r)
+  /\ \E r \in {"ok", "panic"} : MatchR(g, r) /\ Subscribe(CallOf(g).key, CallOf(g).t, CallOf(g).ctx, CallOf(g).auto, r)
   /\ SetPend(g, "done")
 LinUnsub(g) ==
   /\ pend[g].st = "called" /\ CallOf(g).op = "Unsub"
@@ -104,8 +117,9 @@ LinRecv(g) ==
 
 TSilent ==
   /\ SilentOK /\ l' = l /\ UNCHANGED cdone
-  /\ \E g \in GS : pend[g].st \in {"called", "held"} /\
-        (LinSub(g) \/ LinUnsub(g) \/ LinPubQuick(g) \/ LinPubBegin(g) \/ LinPubStep(g) \/ LinPubEnd(g) \/ LinRecv(g))
+  /\ \/ \E g \in GS : pend[g].st \in {"called", "held"} /\
+          (LinSub(g) \/ LinUnsub(g) \/ LinPubQuick(g) \/ LinPubBegin(g) \/ LinPubStep(g) \/ LinPubEnd(g) \/ LinRecv(g))
+     \/ (UNCHANGED pend /\ \E s \in reg : AutoUnsub(s))
 
 TVNext == TSilent \/ TReset \/ TCall \/ TRet \/ TCancel \/ TCancelled \/ TQuiescent \/ TFinal
 TVSpec == TVInit /\ [][TVNext]_tvars
